@@ -24,6 +24,9 @@ BRK = ["C13|handler-registers", "C13|break-equals-end-of-heap-section", "C13|brk
 PIPE = ["C14|pipe-calls-succeed", "C14|write-returns-count", "C14|read-returns-min-of-requested-and-available",
         "C14|bytes-come-out-in-order-without-loss-or-duplication", "C14|read-writes-only-the-returned-bytes"]
 PIPE_FD = ["C14|foreign-descriptors-are-left-to-other-hooks"]
+PIPECALL_READ = ["C14|foreign-descriptors-are-left-to-other-hooks", "C14|read-returns-min-of-requested-and-available",
+                 "C14|bytes-come-out-in-order-without-loss-or-duplication", "C14|read-removes-exactly-the-returned-bytes", "C14|failed-read-changes-nothing"]
+PIPECALL_WRITE = ["C14|foreign-descriptors-are-left-to-other-hooks", "C14|write-returns-count", "C14|write-appends-exactly-the-guest-bytes"]
 
 
 def spec_of(name):
@@ -43,6 +46,11 @@ def spec_of(name):
         return TRACE_RENDER, "<= 2 trace entries, <= 2 call stack entries; format! arguments are not evaluated (E3)", "src/helpers/trace.rs::trace/call_stack"
     if name == "l3_sys_brk":
         return BRK, None, "src/helpers/syscalls.rs::register_brk closure (via handle_syscalls_impl + Hook::run_before)"
+    if name.startswith("l3_sys_pipecall_"):
+        m = re.match(r"l3_sys_pipecall_(read|write)_n(\d)_c(\d)", name)
+        return (PIPECALL_READ if m.group(1) == "read" else PIPECALL_WRITE), \
+            "ONE %s() call with count = %s on a state with one pipe holding %s symbolic bytes; descriptor symbolic; guest buffer of 16 symbolic bytes" % (m.group(1), m.group(3), m.group(2)), \
+            "src/helpers/syscalls.rs::register_pipe closures (%s handler, via handle_syscalls_impl + Hook::run_before)" % m.group(1)
     if name.startswith("l3_sys_pipe_w"):
         m = re.match(r"l3_sys_pipe_w(\d)_r(\d)_r(\d)", name)
         return PIPE, "one pipe; history pipe(), write(%s bytes), read(%s), read(%s) with symbolic byte values" % m.groups(), "src/helpers/syscalls.rs::register_pipe closures"
@@ -67,12 +75,11 @@ def run(tier="quick", prop=None, log=print):
         hs = [h for h in K.plan_l3() if h["variant"] == v]
         if prop == "C13":
             hs = [h for h in hs if "brk" in h["name"]]
+        # the Kani pipe *history* harnesses (l3_sys_pipe_*) are vacuous in this tool version (DESIGN.md 10.8) and are not run;
+        # the one-call harnesses (l3_sys_pipecall_*) are the bounded stand-in of the Verus pipe unit
+        hs = [h for h in hs if not h["name"].startswith("l3_sys_pipe_")]
         if prop == "C14":
-            hs = [h for h in hs if "pipe" in h["name"]]
-        else:
-            # the Kani pipe harnesses are vacuous in this tool version (DESIGN.md 10.8); C14 and the handlers' panic-freedom
-            # are decided by the Verus pipe unit instead
-            hs = [h for h in hs if "pipe" not in h["name"]]
+            hs = [h for h in hs if h["name"].startswith("l3_sys_pipecall_")]
         res, st = R.run_generic("l3" + v, hs, lambda d, hh, v=v: K.build_l3(d, hh, v), K.l3_hash(v), tier, log=log, shard_cap=40, timeout_s=900,
                                 tmpl_builder=lambda d, v=v: K.build_l3(d, [], v))
         stats[v] = st
